@@ -87,6 +87,7 @@ type Contract struct {
 	ReplayImports []string
 	ReplayGo      []string // hand-written reproductions (test bodies) tried when an obligation of this function fails
 	ghostRel      int
+	ghostNames    map[string]bool
 	NoInline      bool // abstract mode: static callees are never inlined (all ghost-relevant calls are direct)
 	AbstractToo   bool
 	Pure          bool                // trusted-pure: parameter names are not bound
